@@ -200,6 +200,15 @@ def analyse(prog: Program, L: Ledger, ci: ClassInfo, f: FuncInfo, deltas: list[i
         if r is None or r[0] != "return":
             raise AnalysisError(f"{f.qualname}: no return reached")
         ret = r[1]
+        # the decision may have been named first (`accepted = u < A; return accepted`, also through an inlined helper)
+        for _hop in range(3):
+            if not isinstance(ret, ast.Name):
+                break
+            defs_ = [st for st in body2 if isinstance(st, (ast.Assign, ast.AnnAssign)) and st.value is not None
+                     and any(isinstance(x, ast.Name) and x.id == ret.id for x in (st.targets if isinstance(st, ast.Assign) else [st.target]))]
+            if len(defs_) != 1:
+                break
+            ret = defs_[0].value
         tag = f"{ci.name}" + (f"[δ={delta:+d}]" if delta is not None else "")
         # ---- D decision shape
         u = v.sym("u", **REAL)
